@@ -26,12 +26,26 @@ import suites
 # is false on a REAL observation is a violation with that observation as the replay.
 
 LAYOUT = ["shape", "order", "level-missing", "level-extra", "driver-exception"]
+XLAYOUT = ["shape", "order", "tlorder", "level-plan", "level-missing", "accept", "builderr", "driver-exception"]
 PROPS = {
-    "C01": dict(suites={"plan": dict(fields=LAYOUT, oracles=["isolated", "exec_perm"])}),
-    "C02": dict(suites={"plan": dict(fields=LAYOUT, oracles=["deps_ordered"])}),
-    "C03": dict(suites={"plan": dict(fields=LAYOUT + ["tl", "tlorder"], oracles=["barriers", "tl_order"])}),
-    "C04": dict(suites={"plan": dict(fields=LAYOUT + ["tl"], oracles=["exec_perm", "exec_perm(shape-sum)"])}),
+    "C01": dict(suites={"plan": dict(fields=LAYOUT, oracles=["isolated", "exec_perm"]),
+                        "exec": dict(fields=XLAYOUT, oracles=["no_overlap", "borrow_panic"])}),
+    "C02": dict(suites={"plan": dict(fields=LAYOUT, oracles=["deps_ordered"]),
+                        "exec": dict(fields=XLAYOUT, oracles=["preds_done"])}),
+    "C03": dict(suites={"plan": dict(fields=LAYOUT + ["tl", "tlorder"], oracles=["barriers", "tl_order"]),
+                        "exec": dict(fields=XLAYOUT, oracles=["preds_done", "tl_last"])}),
+    "C04": dict(suites={"plan": dict(fields=LAYOUT + ["tl"], oracles=["exec_perm", "exec_perm(shape-sum)"]),
+                        "exec": dict(fields=XLAYOUT, oracles=["once", "run_counts"])}),
+    "C05": dict(suites={"exec": dict(fields=XLAYOUT, oracles=["par_eq_seq(world)", "par_eq_seq(states)", "unexpected_panic"])}),
+    "C07": dict(suites={"plan": dict(fields=LAYOUT, oracles=["isolated"]),
+                        "exec": dict(fields=XLAYOUT, oracles=["no_overlap", "inside", "borrow_panic", "par_eq_seq(world)", "par_eq_seq(states)",
+                                                              "once", "preds_done", "unexpected_panic"], kf1=True)}),
     "C10": dict(suites={"plan": dict(fields=LAYOUT + ["maxthr"], oracles=["skip_justified", "max_threads"])}),
+    "C12": dict(suites={"plan": dict(fields=["tl", "tlorder", "sendable", "driver-exception"], oracles=["tl_order", "sendable", "sendable_preserves_plan"]),
+                        "exec": dict(fields=XLAYOUT, oracles=["tl_on_caller", "inner_tl_on_caller", "tl_last"], kf1=True)}),
+    "C13": dict(suites={"exec": dict(fields=["builderr", "driver-exception"], oracles=["setup_visits", "setup_keeps", "dispose_visits"])}),
+    "C14": dict(suites={"exec": dict(fields=XLAYOUT, oracles=["panic_payload", "panic_dependents", "panic_twice", "next_dispatch", "probe_free",
+                                                              "unexpected_panic"])}),
     "C18": dict(suites={"plan": dict(fields=["calls", "err", "driver-exception"], oracles=["errors_exact", "status:setup-panic", "status:run-panic"],
                                      gens=["malformed"])}),
     "C20": dict(suites={"plan": dict(fields=["print", "driver-exception"], oracles=["print_total", "print_matches"])}),
@@ -153,7 +167,7 @@ def main():
                 if o in sspec["oracles"] or o.split(":")[0] in sspec["oracles"]:
                     violations.append((o, lvl, case, sname))
             for (f, lvl, m, rl, case) in r.disagreements:
-                if f in sspec["fields"]:
+                if f in sspec["fields"] or f.split(":")[0] in sspec["fields"]:
                     disagreements.append((f, lvl, m, rl, case, sname))
             if r.error:
                 broken.append(("suite-" + sname, r.error))
